@@ -212,6 +212,7 @@ def run_case(c):
     o['sd_err'] = type(e).__name__
     return o
   o['sd_roundtrip'] = _try(lambda: strip_kind(canon(S.from_state_dict(t, S.to_state_dict(t)))))
+  o['sd_treedef_same'] = _try(lambda: jax.tree_util.tree_structure(S.from_state_dict(t, S.to_state_dict(t)), is_leaf=lambda z: z is None) == jax.tree_util.tree_structure(t, is_leaf=lambda z: z is None))
   o['by_threshold'] = {}
   saved = S.MAX_CHUNK_SIZE
   try:
@@ -222,7 +223,9 @@ def run_case(c):
         r = S.from_bytes(t, b)
         raw = S.msgpack_restore(S.msgpack_serialize(S.to_state_dict(t)))
         out = {'bytes': b.hex() if c.get('want_bytes') else None, 'nbytes': len(b), 'restored': strip_kind(canon(r)),
-               'raw_restored': strip_kind(canon(raw))}
+               'raw_restored': strip_kind(canon(raw)),
+               # the restored value is the same pytree: jax sees the same node types at every level (a FrozenDict keeps plain dicts inside)
+               'treedef_same': jax.tree_util.tree_structure(r, is_leaf=lambda z: z is None) == jax.tree_util.tree_structure(t, is_leaf=lambda z: z is None)}
         if c.get('want_bytes'):
           # the decoding half on its own: msgpack_restore of the real bytes, of strict prefixes and with a trailing byte
           out['restore_of_bytes'] = canon(S.msgpack_restore(b))
